@@ -88,6 +88,38 @@ def expected(spec: Dict, ind, rows: List[Dict]) -> Dict[str, Tuple[List, float]]
     raise KeyError(k)
 
 
+SPEC_KINDS = {"SMA", "EMA", "RMA", "WMA", "TR", "ATR", "HLA", "RSI", "ROC", "OBV", "VWAP"}
+
+
+def spec_term(spec: Dict, ind, rows: List[Dict]) -> str:
+    """Case for check_spec: the recurrence specification run over the input columns must
+    reproduce the implementation's column bit for bit."""
+    from .mgrcorr import EXN_CODES
+    k = spec["kind"]
+    z, n = C.zlit, C.numlit
+    if k in ("SMA", "RMA", "WMA", "ATR", "RSI", "ROC"):
+        kt = f"(@S_{k} F {z(ind.period)})"
+    elif k == "EMA":
+        kt = f"(@S_EMA F {z(ind.period)} {n(ind.smoothing)})"
+    else:
+        kt = f"(@S_{k} F)"
+    src = getattr(ind, "input_value", None)
+    inps = []
+    for r in rows:
+        x = None
+        if src is not None:
+            x = r[src] if src in ("open", "high", "low", "close", "volume") else r.get("inds", {}).get(src)
+        inps.append("mkinp %s %s %s %s %s %s" % (n(r["open"]), n(r["high"]), n(r["low"]), n(r["close"]), n(r["volume"]),
+                                               C.optlit(x, n)))
+    try:
+        ind2 = X.build(spec, X.mk_rows(rows), {})
+        ind2.calculate()
+        exp = "(inl %s)" % C.listlit(ind2.as_list(), C.vallit)
+    except Exception as e:  # noqa
+        exp = "(inr %s)" % C.zlit(EXN_CODES.get(type(e).__name__, 99))
+    return "(%s, %s, %s, %s)" % (kt, z(ind.round_value), C.listlit(inps), exp)
+
+
 def falsify(ctx, case: Dict) -> bool:
     spec, rows = case["spec"], case["rows"]
     bad = None
@@ -159,10 +191,20 @@ def run(ctx: core.Ctx, prop: str, kinds: List[str], n_quick: int, n_thorough: in
     n_corpus = len(cases)
     for _ in range(ctx.n(n_quick, n_thorough)):
         cases.append(gen_case(rng, ctx, kinds))
+    spec_terms, spec_metas, pows = [], [], set()
     for c in cases:
         ctx.count("eval_falsifier")
         falsify(ctx, c)
         corr.add(c["spec"], {}, c["rows"], [("calculate",)], rng, c.get("meta"))
+        if c["spec"]["kind"] in SPEC_KINDS and c["spec"]["kw"].get("input_value") not in ("zsrc",):
+            try:
+                probe = X.build(c["spec"], [], {})
+                spec_terms.append(spec_term(c["spec"], probe, c["rows"]))
+                spec_metas.append(c)
+                pows.update(X.pow_entries(c["spec"], probe))
+                ctx.count("eval_spec_correspondence")
+            except Exception:  # noqa
+                pass
         k = c["spec"]["kind"]
         dist[k] = dist.get(k, 0) + 1
         if c.get("late"):
@@ -171,6 +213,14 @@ def run(ctx: core.Ctx, prop: str, kinds: List[str], n_quick: int, n_thorough: in
         if len(ctx.samples) < 3 and len(c["rows"]) > 10:
             ctx.sample({"spec": c["spec"], "n": len(c["rows"]), "late": c.get("late"), "first_rows": c["rows"][:2]})
     corr.run()
+    if spec_terms:
+        bad, errs = C.run_shards(prop, "spec", spec_terms, "spec_case POW", "check_spec POW", pow_table=sorted(pows))
+        for e in errs:
+            ctx.corr_disagreements.append({"relation": "check_spec (Run/Check.v) failed to evaluate", "log": e})
+        for b in bad[:6]:
+            ctx.corr_disagreements.append({"relation": "check_spec: recurrence specification (Spec/Steppers.v) != implementation column",
+                                           "spec": spec_metas[b]["spec"], "rows": spec_metas[b]["rows"]})
+        ctx.coverage.update({"spec_correspondence_cases": len(spec_terms), "spec_correspondence_disagreements": len(bad) + len(errs)})
     ctx.coverage.update({"input_distribution": dist, "corpus_cases": n_corpus,
                          "nontrivial_rule": "stream at least twice as long as the indicator's period",
                          "tolerance_rule": "per field: absolute tolerance scaled by 10^(4-round_value) plus 1e-7 relative; "
